@@ -15,8 +15,10 @@ def lr_ok(F, j0, j1, cum, L, own, sg_pos, sg_len, sg_attr):
             and len(own) == len(L)
             and forall(0, len(L), lambda n: j0 <= own[n] and own[n] <= j1 and cum[own[n]] <= n and n < cum[own[n] + 1]
                        and L[n] == F[sg_pos[own[n]] + 4 + (n - cum[own[n]])], trigger=lambda n: [L[n], own[n]])
+            and forall_n(lambda n, j: implies(0 <= n and n < len(L) and j0 <= j and j <= j1 and cum[j] <= n and n < cum[j + 1], own[n] == j),
+                         trigger=lambda n, j: (own[n], sg_len[j]))
             and forall_n(lambda a, b: implies(j0 <= a and a <= b and b <= j1 + 1, cum[a] <= cum[b]),
-                         trigger=lambda a, b: (cum[a], cum[b])))
+                         trigger=lambda a, b: (sg_len[a], sg_len[b])))
 
 def got(C, offset, length):
     """how many bytes of the requested range [offset, offset+length) lie in the first C bytes of the record"""
@@ -118,3 +120,55 @@ def register(reg):
         canaries=['len(result.logical_data.bytes) == 0', 'len(result.logical_data.bytes) == len(L)'], native_gen=GEN_GET, timeout=30))
 
 TIMEOUT = {'quick': 20, 'thorough': 90}
+
+
+def standins(tier, seed):
+    """Index content (iter_logical_record_positions is a pair of nested generators that interleave file access, which
+    the eager generator model of the verifier does not cover) and fetch-by-index in random order: bounded."""
+    from pyvc import standin
+    n = 150 if tier == 'quick' else 5000
+    code = r'''
+from gen import dlis, files
+from TotalDepth.RP66V1.core import pFile, pIndex
+rnd = random.Random(%d)
+bad = []
+cases = 0
+for it in range(%d):
+    recs = dlis.random_records(rnd, rnd.randint(1, 6))
+    data, lay = dlis.build(recs, rnd)
+    S = len(lay['sg_pos'])
+    firsts = [j for j in range(S) if not (lay['sg_attr'][j] & 0x40)]
+    f = files.CountingFile(data)
+    with pIndex.LogicalRecordIndex(f) as idx:
+        cases += 1
+        ok = len(idx) == len(recs)
+        for k, j0 in enumerate(firsts):
+            if not ok:
+                break
+            e = idx[k]
+            j1 = j0
+            while lay['sg_attr'][j1] & 0x20:
+                j1 += 1
+            ldl = sum(lay['sg_len'][j] - 4 - (2 if lay['sg_attr'][j] & 4 else 0) - (2 if lay['sg_attr'][j] & 2 else 0) for j in range(j0, j1 + 1))
+            ok = (e.position.vr_position == lay['sg_vrp'][j0] and e.position.lrsh_position == lay['sg_pos'][j0]
+                  and e.description.lr_type == recs[k][1] and e.description.attributes.is_eflr == recs[k][0]
+                  and e.description.ld_length == ldl)
+        order = [rnd.randrange(len(recs)) for _ in range(2 * len(recs))] if ok else []
+        for k in order:
+            f.reset_footprint()
+            fld = idx.get_file_logical_data(k)
+            j0 = firsts[k]
+            j1 = j0
+            while lay['sg_attr'][j1] & 0x20:
+                j1 += 1
+            if fld.logical_data.bytes != recs[k][2] or fld.lr_type != recs[k][1] or fld.lr_is_eflr != recs[k][0] \
+                    or f.rd_lo < lay['sg_vrp'][j0] or f.rd_hi > lay['sg_vrp'][j1] + lay['sg_vrl'][j1]:
+                ok = False
+        if not ok and len(bad) < 3:
+            bad.append({'iteration': it, 'records': [[r[0], r[1], len(r[2])] for r in recs], 'file_hex': data.hex()[:400]})
+print(json.dumps({'cases': cases, 'bad': bad}))
+if bad:
+    sys.exit(1)
+''' % (seed, n)
+    return [standin.run('index-entries-and-random-order-fetch', 'bounded: random conformant files from /verif/gen/dlis.py',
+                        '%d files of 1..6 logical records, payloads 0..130 bytes, random segment / visible record sizes, 2K fetches each' % n, code)]
